@@ -40,7 +40,7 @@ def tasks(tier, seed):
                        "rng_k": 1 if "Random" in cfg["part"] else None})
         if wrapper and tier == "quick" and cfg["part"] != "Binary":
             continue
-        for base in (("negpeak",) if tier == "quick" else ("negpeak", "peak", "alt", "twopeak")):
+        for base in (("negpeak", "off12") if tier == "quick" else ("negpeak", "off12", "peak", "alt", "twopeak")):
             ts.append({"kind": "algo", "label": "dev/%s/%s" % (lab, base), "cfg": cfg, "mode": "dev", "T": 100,
                        "R": [-1.0, 1.0] if wrapper else list(configs.R3), "base": base, "k": 1 if (tier == "quick" or wrapper) else 2,
                        "max_exec": 2500 if tier == "quick" else 30000, "cost": 10})
